@@ -129,6 +129,64 @@ pub fn check_cut(bytes: &[u8], lay: &[Lay], c: usize, exp: &Expect, obs: &Obs) -
     }
 }
 
+/// The expected items with the masters of `set` buffered: a complete buffered master becomes one Full item (every
+/// master inside it is a Full as well); a buffered master whose End is not among the expected items is incomplete and
+/// nothing of it is emitted (it is the last thing before the end-of-file error).
+pub fn rollup_expect(items: &[(NItem, usize)], set: &[u64]) -> Vec<(NItem, usize)> {
+    fn matching_end(items: &[(NItem, usize)], i: usize) -> Option<usize> {
+        let mut depth = 0usize;
+        for (j, (it, _)) in items.iter().enumerate().skip(i) {
+            match it {
+                NItem::Start(_) => depth += 1,
+                NItem::End(_) => {
+                    depth -= 1;
+                    if depth == 0 {
+                        return Some(j);
+                    }
+                }
+                _ => {}
+            }
+        }
+        None
+    }
+    fn build(items: &[(NItem, usize)]) -> Vec<NItem> {
+        let mut out = Vec::new();
+        let mut i = 0;
+        while i < items.len() {
+            match &items[i].0 {
+                NItem::Start(id) => {
+                    let j = matching_end(items, i).expect("machinery: unbalanced inside a complete master");
+                    out.push(NItem::Full(*id, build(&items[i + 1..j])));
+                    i = j + 1;
+                }
+                other => {
+                    out.push(other.clone());
+                    i += 1;
+                }
+            }
+        }
+        out
+    }
+    let mut out = Vec::new();
+    let mut i = 0;
+    while i < items.len() {
+        match &items[i].0 {
+            NItem::Start(id) if set.contains(id) => match matching_end(items, i) {
+                Some(j) => {
+                    out.push((NItem::Full(*id, build(&items[i + 1..j])), items[i].1));
+                    i = j + 1;
+                }
+                None => return out,
+            },
+            _ => {
+                out.push(items[i].clone());
+                i += 1;
+            }
+        }
+    }
+    out
+}
+
 fn term_kind(t: &Term) -> String {
     match t {
         Term::Done => "ended-cleanly".into(),
@@ -155,10 +213,10 @@ pub fn run(ctx: &mut Ctx) {
         extras: true,
         all_widths: false,
     };
-    ctx.meta("rule", "cases: (document, cut position c, capacity, read schedule); documents = every forest over V up to the node bound and the hand-written deep spines, every known/unknown-size choice of masters, one encoding/payload deviation; every c in 0..=len; capacities {default,16,17,64}; schedules with <= 1 short read (1,2,3,7 bytes at read k) and with every read 1 resp. 2 bytes. Oracle: RefEncoder layout -> items completely inside the prefix, then Ends+None on a tag boundary, else UnexpectedEOF with tag_start/id/size/partial_data exactly as the statement prescribes (partial_data None accepted for zero available bytes). Non-trivial: cuts strictly inside a tag.");
+    ctx.meta("rule", "cases: (document, cut position c, capacity, read schedule); documents = every forest over V up to the node bound and the hand-written deep spines, every known/unknown-size choice of masters, one encoding/payload deviation; every c in 0..=len; capacities {default,16,17,64}; schedules with <= 1 short read (1,2,3,7 bytes at read k) and with every read 1 resp. 2 bytes; every (document, cut) also with each master id present, and all of them, buffered (whole reads and 1-byte reads): a complete buffered master is one Full item, nothing of an incomplete one is emitted, everything before it is, and the error is the same. Oracle: RefEncoder layout -> items completely inside the prefix, then Ends+None on a tag boundary, else UnexpectedEOF with tag_start/id/size/partial_data exactly as the statement prescribes (partial_data None accepted for zero available bytes). Non-trivial: cuts strictly inside a tag.");
     ctx.meta("bounds", &format!("documents <= {} elements (+ spines to depth 5 with 8-byte ids), <=1 deviation, all cuts, 4 capacities, <=1 read deviation", p.max_nodes));
     ctx.meta("assumptions", "payload contents are data-independent beyond the representative classes");
-    for c in ["cut_inside_id", "cut_inside_size", "cut_inside_payload", "cut_on_boundary_with_open_masters", "unknown_size_docs"] {
+    for c in ["cut_inside_id", "cut_inside_size", "cut_inside_payload", "cut_on_boundary_with_open_masters", "unknown_size_docs", "cuts_with_buffered_masters", "cut_inside_buffered_master_that_follows_another_master"] {
         ctx.expect_nonzero(c);
     }
     let caps = [None, Some(16), Some(17), Some(64)];
@@ -169,6 +227,17 @@ pub fn run(ctx: &mut Ctx) {
         let (bytes, lay) = ref_encode(doc);
         let _ = flatten;
         let has_unknown = lay.iter().any(|l| l.unknown);
+        // buffered sets: each master id present alone, and all of them
+        let mut present: Vec<u64> = Vec::new();
+        crate::refmodel::visit(doc, &mut |n, _| {
+            if n.is_master() && !present.contains(&n.id) {
+                present.push(n.id);
+            }
+        }, 0);
+        let mut bsets: Vec<Vec<u64>> = present.iter().map(|i| vec![*i]).collect();
+        if present.len() > 1 {
+            bsets.push(present.clone());
+        }
         for c in 0..=bytes.len() {
             let exp = expect_for_cut(doc, &lay, bytes.len(), c);
             let prefix = &bytes[..c];
@@ -189,6 +258,33 @@ pub fn run(ctx: &mut Ctx) {
                             let mut s = vec![Step::Full; k];
                             s.push(Step::Max(m));
                             schedules.push(s);
+                        }
+                    }
+                }
+                // buffered masters (default capacity): whole reads and 1-byte reads
+                if cap.is_none() {
+                    for set in &bsets {
+                        let bexp = Expect { items: rollup_expect(&exp.items, set), incomplete: exp.incomplete };
+                        let bcfg = cfg.clone().with_buffered(set);
+                        for steps in [vec![], vec![Step::Max(1); c + 2]] {
+                            let d = || format!("doc=[{}] bytes={} cut={} buffered=[{}] steps={:?}", docs::doc_short(&rs, doc), hex(&bytes), c, set.iter().map(|x| format!("{:x}", x)).collect::<Vec<_>>().join(","), steps);
+                            if !ctx.enter(&d) {
+                                continue;
+                            }
+                            let (obs, _, _) = parse_script::<V>(prefix, &bcfg, &steps);
+                            ctx.transitions += obs.items.len() as u64 + 1;
+                            ctx.count("cuts_with_buffered_masters", 1);
+                            if exp.incomplete.is_some() {
+                                ctx.nontrivial();
+                                if bexp.items.len() < exp.items.len() && bexp.items.last().map(|x| matches!(x.0, NItem::Full(..) | NItem::End(_))).unwrap_or(false) {
+                                    ctx.count("cut_inside_buffered_master_that_follows_another_master", 1);
+                                }
+                            }
+                            if let Err((k, det)) = check_cut(&bytes, &lay, c, &bexp, &obs) {
+                                ctx.violation(&format!("buffered/{}", k), &d, &format!("{} | observed {}", det, obs.short()));
+                            }
+                            ctx.validated += 1;
+                            ctx.leave();
                         }
                     }
                 }
